@@ -15,6 +15,8 @@ import (
 	"fmt"
 	"math/big"
 	"os"
+	"path/filepath"
+	"sort"
 	"strings"
 
 	"fxverif/lib"
@@ -154,13 +156,40 @@ func main() {
 		n = int(v)
 	}
 	var items []string
-	// the three scripted life cycles (the witnesses of the *_refuted theorems, replayed on the real app)
-	for i, sc := range scripted() {
-		r := newRunner(1000+int64(i), []string{"eth", "bsc"}, rep)
-		for _, op := range sc {
+	// corpus first: the recorded life cycles (corpus/C13/*.json — the replays of findings C13-1 (fixed in /repo)
+	// and C13-2 (known); they are the witnesses of the *_refuted / life-cycle theorems run on the real app).
+	// C13_WRITE_CORPUS=1 rewrites the files from scripted().
+	corpusDir := filepath.Join("..", "corpus", "C13")
+	if os.Getenv("C13_WRITE_CORPUS") != "" {
+		lib.Must(os.MkdirAll(corpusDir, 0o755))
+		for i, sc := range scripted() {
+			b, _ := json.MarshalIndent(History{Seed: 1000 + int64(i), Modules: []string{"eth", "bsc"}, Ops: sc}, "", " ")
+			name := []string{"A-C13-1-withdraw-after-maturity", "B-C13-1-withdraw-before-maturity", "C-C13-2-add-delegate-after-removal"}[i]
+			lib.Must(os.WriteFile(filepath.Join(corpusDir, name+".json"), b, 0o644))
+		}
+	}
+	var corpus []History
+	if files, _ := filepath.Glob(filepath.Join(corpusDir, "*.json")); len(files) > 0 {
+		sort.Strings(files)
+		for _, f := range files {
+			raw, err := os.ReadFile(f)
+			lib.Must(err)
+			var h History
+			lib.Must(json.Unmarshal(raw, &h))
+			corpus = append(corpus, h)
+		}
+	} else {
+		for i, sc := range scripted() {
+			corpus = append(corpus, History{Seed: 1000 + int64(i), Modules: []string{"eth", "bsc"}, Ops: sc})
+		}
+	}
+	for i, h := range corpus {
+		r := newRunner(h.Seed, h.Modules, rep)
+		for _, op := range h.Ops {
 			r.do(op)
 		}
-		rep.Case(fmt.Sprintf("scripted-%d", i), true)
+		rep.Case(fmt.Sprintf("corpus-%d", i), true)
+		rep.Count("corpus-history")
 		items = append(items, r.coqCases()...)
 	}
 	callsOK := bridgeCallLoopSafe()
@@ -258,20 +287,22 @@ func scripted() [][]Op {
 		return ops
 	}
 	const mature = 1814400 + 10
-	// A: removed by governance, unbonding matures, withdrawal refused for ever (C13-1a)
+	// A: removed by governance, unbonding matures, then withdraws (before the C13-1 fix: refused for ever); second
+	//    withdrawal refused
 	a := setup()
 	a = append(a, confirmAll(1, -1)...)
 	a = append(a, Op{K: "gov", M: 0, L: []int{1, 2, 3, 4, 5, 6}}, Op{K: "block"})
 	a = append(a, confirmAll(2, 0)...)
 	a = append(a, Op{K: "unbond", M: 0, A: 1}) // still approved: correctly refused
 	a = append(a, Op{K: "block", Dt: mature}, Op{K: "block"}, Op{K: "unbond", M: 0, A: 0}, Op{K: "block"}, Op{K: "unbond", M: 0, A: 0})
-	// B: removed by governance, withdraws BEFORE maturity: accepted, pays only the rewards, records deleted,
-	//    the stake later matures into the keyless delegate address (C13-1b); second withdrawal refused
+	// B: removed by governance, tries to withdraw BEFORE maturity (before the C13-1 fix: accepted, pays only the
+	//    rewards, records deleted, the stake later matures into the keyless delegate address), then after it
 	b := setup()
 	b = append(b, confirmAll(1, -1)...)
 	b = append(b, Op{K: "gov", M: 0, L: []int{1, 2, 3, 4, 5, 6}}, Op{K: "block"})
 	b = append(b, confirmAll(2, 0)...)
-	b = append(b, Op{K: "unbond", M: 0, A: 0}, Op{K: "unbond", M: 0, A: 0}, Op{K: "block", Dt: mature}, Op{K: "block"})
+	b = append(b, Op{K: "unbond", M: 0, A: 0}, Op{K: "unbond", M: 0, A: 0}, Op{K: "block", Dt: mature}, Op{K: "block"},
+		Op{K: "unbond", M: 0, A: 0}, Op{K: "unbond", M: 0, A: 0})
 	// C: removed, re-approved, add-delegate of one base unit: online again with the full recorded stake
 	//    and a delegation of one base unit; the old stake comes back through withdraw-reward (C13-2).
 	//    Oracle 3 does not sign oracle set 1 and is slashed by the real end blocker, pays the penalty.
